@@ -48,6 +48,7 @@ const (
 	FlagOdd                // environment-illegal report (fault)
 	FlagEmpty              // resolver update with an empty address list
 	FlagNilMsg             // nil request message
+	FlagChain              // caller's context derives from an earlier intercepted call's context
 )
 
 // Conn event selectors (Op.B for OpConn).
@@ -328,9 +329,9 @@ func Generate(r *rand.Rand, profile string, concurrent bool, av Avoid) *Plan {
 	w := profiles[profile](r, p)
 	if w.oddPct > 0 && r.IntN(2) == 0 {
 		p.Legal = false
-		if profile == "chaos" && !concurrent && r.IntN(3) == 0 {
-			p.LiveShutdown = true
-		}
+	}
+	if !concurrent && (profile == "chaos" || profile == "state" || profile == "refresh") && r.IntN(6) == 0 {
+		p.LiveShutdown = true
 	}
 	if concurrent {
 		p.Strategy = r.IntN(4)
@@ -422,6 +423,9 @@ func Generate(r *rand.Rand, profile string, concurrent bool, av Avoid) *Plan {
 			if (profile == "affinity" || profile == "fallback") && r.IntN(15) == 0 {
 				o.F |= FlagStream // C12: the first message of a stream is visible to the picker
 			}
+			if (profile == "affinity" || profile == "fallback" || profile == "chaos") && r.IntN(12) == 0 {
+				o.F |= FlagChain
+			}
 			if profile == "chaos" {
 				if r.IntN(12) == 0 {
 					o.F |= FlagNoGCP
@@ -484,6 +488,9 @@ func Generate(r *rand.Rand, profile string, concurrent bool, av Avoid) *Plan {
 			frag = append(frag, Op{K: OpConn, A: -2, B: ConnProgress}, Op{K: OpConn, A: -2, B: ConnProgress}, Op{K: OpPick, B: MBound, Keys: []int{k}})
 		}
 		if concurrent {
+			// a possible stand-in fails while the first keyed call is being placed
+			ins := Op{K: OpConn, A: r.IntN(3), B: ConnFail}
+			frag = append(frag[:10], append([]Op{ins}, frag[10:]...)...)
 			for i := range frag {
 				frag[i].N = r.IntN(6)
 			}
@@ -564,6 +571,40 @@ func Generate(r *rand.Rand, profile string, concurrent bool, av Avoid) *Plan {
 			{K: OpPick, B: MBound, Keys: []int{k}, N: 20},
 			{K: OpPick, B: MBound, Keys: []int{k}, N: 20},
 		}
+		at := 3 + r.IntN(len(p.Ops)-3)
+		ops := append([]Op{}, p.Ops[:at]...)
+		ops = append(ops, frag...)
+		p.Ops = append(ops, p.Ops[at:]...)
+	}
+	// Directed concurrent fragment: several calls of one channel run into their
+	// deadline, the detection window passes, and their completion callbacks
+	// overlap each other, a resolver update with another address list and the
+	// state reports of the replacement: the windows inside refresh().
+	if concurrent && (profile == "refresh" || profile == "resolver" || profile == "chaos") && p.Cfg.UMs > 0 && p.Cfg.UCalls > 0 && r.IntN(3) == 0 && len(p.Ops) > 4 {
+		k := r.IntN(nKeys)
+		st := func() int { return r.IntN(6) }
+		n := int(p.Cfg.UCalls) + 1 + r.IntN(2)
+		frag := []Op{
+			{K: OpConn, A: 0, B: ConnProgress}, {K: OpConn, A: 0, B: ConnProgress},
+			{K: OpConn, A: 1, B: ConnProgress}, {K: OpConn, A: 1, B: ConnProgress},
+			{K: OpSteps, A: 60},
+			{K: OpPick, B: MBind, Keys: []int{k}, N: 30},
+			{K: OpDone, A: -1, B: OutOK, Keys: []int{k}, N: 30},
+		}
+		for c := 0; c < n; c++ {
+			frag = append(frag, Op{K: OpPick, B: MBound, Keys: []int{k}, D: 1, E: 1, N: 20})
+		}
+		frag = append(frag, Op{K: OpSteps, A: 40}, Op{K: OpAdvance, E: int(p.Cfg.UMs) + 2})
+		tail := []Op{}
+		for c := 0; c < n; c++ {
+			tail = append(tail, Op{K: OpDone, A: -1, B: OutClientDE, N: st()})
+		}
+		if r.IntN(2) == 0 {
+			tail = append(tail, Op{K: OpResolver, A: r.IntN(3), N: st()})
+		}
+		r.Shuffle(len(tail), func(a, b int) { tail[a], tail[b] = tail[b], tail[a] })
+		frag = append(frag, tail...)
+		frag = append(frag, Op{K: OpSteps, A: 30}, Op{K: OpConn, A: -1, B: ConnProgress, N: st()}, Op{K: OpConn, A: -1, B: ConnProgress, N: st()}, Op{K: OpSteps, A: 40})
 		at := 3 + r.IntN(len(p.Ops)-3)
 		ops := append([]Op{}, p.Ops[:at]...)
 		ops = append(ops, frag...)
